@@ -144,6 +144,20 @@ pub fn shrink(def: &CheckDef, plan: &Plan, class: &str, tier: Tier) -> Plan {
 		let j = (def.judge)(p, tier);
 		j.violation.map(|v| v.class == class).unwrap_or(false)
 	};
+	// 0. twins: drop the twin, or continue with the twin alone
+	if best.twin.is_some() && best.crash.is_none() {
+		let mut p = best.clone();
+		p.twin = None;
+		if still(&p, &mut budget) {
+			best = p;
+		} else {
+			let mut t = (**best.twin.as_ref().unwrap()).clone();
+			t.check = best.check.clone();
+			if still(&t, &mut budget) {
+				best = t;
+			}
+		}
+	}
 	// 1. drop the twin's / windows' / faults entirely if possible
 	if !best.windows.is_empty() {
 		let mut p = best.clone();
